@@ -122,6 +122,11 @@ func (f *Filter) ModifyResponse(res *http.Response) error {
 	if !strings.Contains(res.Request.URL.Host, ":") && (f.port == defaultPort) {
 		return f.resmod.ModifyResponse(res)
 	}
+	if !strings.Contains(res.Request.URL.Host, ":") {
+		// no port explicitly declared and the filter's port is not the default
+		// port of the scheme: no match (as in ModifyRequest).
+		return nil
+	}
 
 	_, p, err := net.SplitHostPort(res.Request.URL.Host)
 	if err != nil {
